@@ -278,7 +278,7 @@ func VerifStreamMergeExpired(k int, n int, badCall int) {
 			vAssert(total == k*n, "C12:smerge/end-only-after-everything-was-delivered")
 			ended = true
 		default:
-			vAssert(call == badCall && err == context.Canceled, "C08:smerge/expired-call-context-costs-nothing-no-error-that-no-input-produced")
+			vAssert(call == badCall && err == context.Canceled, "C08+C12:smerge/expired-call-context-costs-nothing-no-error-that-no-input-produced")
 			if call != badCall {
 				return
 			}
